@@ -122,6 +122,9 @@ impl Hash for NumericValue {
                 state.write_u8(FLOAT64_HASH);
                 if x.is_nan() {
                     state.write_u64(0);
+                } else if *x == 0.0 {
+                    // 0.0 and -0.0 are equal so must hash equally.
+                    state.write_u64(0.0f64.to_bits());
                 } else {
                     state.write_u64(x.to_bits());
                 }
